@@ -1,6 +1,6 @@
 (* C07 -- derived operations agree with the two primitive parsers. *)
 From Curies.model Require Import Str PyData Trie Conv Query Val Answer Spec CheckQ.
-From Curies.proofs Require Import StrFacts IndexFacts QueryFacts LawFacts.
+From Curies.proofs Require Import StrFacts IndexFacts QueryFacts LawFacts CheckFacts PModelFacts.
 
 Theorem C07_is_uri_compress : forall d rs c, mk_conv true d rs = Val c -> forall u,
   is_uri c u = true <-> compress c u false false <> Val None.
@@ -53,3 +53,8 @@ Example C07_both :
     parse c [71;79;58;49]%N false = Val (Some ([120], [49]))%N /\
     parse_curie c [71;79;58;49]%N false = Val (Some ([71;79], [49]))%N.
 Proof. eexists. split; [vm_compute; reflexivity|]. vm_compute. auto. Qed.
+
+(* the executable predicate P_C07 accepts the model's own answers on every valid case *)
+Theorem C07_P_model : forall k, valid_q k = true -> eval_P 7 k (model_qobs k) = 1%Z.
+Proof. exact PModelFacts.P_C07_model. Qed.
+Print Assumptions C07_P_model.
